@@ -184,8 +184,10 @@ class Ctx:
 
     def __post_init__(self):
         self.rng = random.Random(self.seed)
-        kf = VERIF / "known_findings.json"
-        if kf.exists():
+        files = [VERIF / "known_findings.json"] + sorted((VERIF / "known_findings.d").glob("*.json"))
+        for kf in files:
+            if not kf.exists():
+                continue
             for e in json.loads(kf.read_text()):
                 if e.get("property") != self.prop_id:
                     continue
@@ -416,7 +418,7 @@ def eval_cases(cases: list, impl, holds=None, known=None, nontrivial=None, paral
     global _WORK
     _WORK = (impl, holds, known, nontrivial)
     if parallel is None:
-        parallel = len(cases) >= 4000
+        parallel = len(cases) >= 30000
     if not parallel:
         return _work_chunk(cases)
     import multiprocessing as mp
@@ -528,3 +530,23 @@ def sweep_differential(ctx: Ctx, name: str, requires: list[str], shards: list[tu
             ctx.sample({"family": name, "case": c, "impl": r})
     ctx.evaluations += len(flat)
     return _report(ctx, name, len(flat), fails, diverge, known_hits, model_err, exhaustive, t)
+
+
+def replay_findings(ctx: Ctx, family: str, impl, holds):
+    """Replay the committed witnesses of `family` (entries of known_findings*.json whose
+    "family" field equals `family`) on the implementation.  A listed known finding that still
+    fails prints its KNOWN-FINDING line; a `fixed` entry that fails again is a violation."""
+    for e in ctx.known_findings + ctx.fixed_findings:
+        if e.get("family") != family or "witness" not in e:
+            continue
+        r = to_jsonable(impl(e["witness"]))
+        ok, why = holds(e["witness"], r)
+        ctx.evaluations += 1
+        if e.get("fixed"):
+            if not ok:
+                ctx.violation({"family": family, "case": e["witness"], "impl_result": r, "oracle": why,
+                               "regression_of_fixed_finding": e.get("line") or e.get("id")})
+        elif not ok:
+            ctx.known(e["id"], e["what"])
+        else:
+            ctx.coverage.setdefault("known_findings_no_longer_failing", []).append(e["id"])
